@@ -11,9 +11,9 @@ extern "C" {
 typedef __int128 i128;
 typedef long double LD;
 
-enum { L_TF, L_TF_ORDER2, L_TF_DEN_GT_NUM, L_TF_NUM_GT_DEN, L_TF_ORDER0, L_TF_ZERO_MID, L_TF_LINEAR, L_TF_DELAY, L_LPF, L_HPF, L_GEN, L_GEN_EXTREME_OPERAND, L_GEN_SATURATING, L_DYADIC, L_TF_STOPPED_MAGNITUDE, L_WIDE };
+enum { L_TF, L_TF_ORDER2, L_TF_DEN_GT_NUM, L_TF_NUM_GT_DEN, L_TF_ORDER0, L_TF_ZERO_MID, L_TF_LINEAR, L_TF_DELAY, L_LPF, L_HPF, L_GEN, L_GEN_EXTREME_OPERAND, L_GEN_SATURATING, L_DYADIC, L_TF_STOPPED_MAGNITUDE, L_WIDE, L_TF_RECONFIGURED };
 static char const *const labels[] = {"tf", "tf_num_ge_2_and_den_ge_2", "tf_den_gt_num", "tf_num_gt_den", "tf_order_0_side", "tf_zero_mid_history", "tf_linearity", "tf_time_invariance",
-                                     "lpf", "hpf", "coefficient_generators", "generator_operand_beyond_1e+-150", "generator_product_outside_1e+-12", "dyadic_alpha_exact_class", "tf_history_cut_at_2^52", "inputs_over_whole_exponent_range", nullptr};
+                                     "lpf", "hpf", "coefficient_generators", "generator_operand_beyond_1e+-150", "generator_product_outside_1e+-12", "dyadic_alpha_exact_class", "tf_history_cut_at_2^52", "inputs_over_whole_exponent_range", "tf_numerator_or_denominator_replaced_mid_history", nullptr};
 static char const *const metrics[] = {"max_lpf_range_excess_ulps", "max_gen_error_ulps", nullptr};
 static uint8_t const dict[] = {2, 3, 8, 24};
 static vp_info const info = {"C16", "filters", "", labels, metrics, 160, dict, sizeof(dict)};
@@ -73,11 +73,15 @@ struct TF
 {
     Blk num, den, input, output;
     a_tf ctx;
-    TF(std::vector<int> const &b, std::vector<int> const &a) : num(b.size()), den(a.size()), input(b.size()), output(a.size())
+    TF(std::vector<int> const &b, std::vector<int> const &a, bool member = false) : num(b.size()), den(a.size()), input(b.size()), output(a.size())
     {
         for (size_t i = 0; i < b.size(); ++i) { num.p[i] = b[i]; }
         for (size_t i = 0; i < a.size(); ++i) { den.p[i] = a[i]; }
-        a_tf_init(&ctx, unsigned(b.size()), num.p, input.p, unsigned(a.size()), den.p, output.p);
+        // the history blocks arrive dirty: init has to clear them
+        for (size_t i = 0; i < b.size(); ++i) { input.p[i] = 7.5; }
+        for (size_t i = 0; i < a.size(); ++i) { output.p[i] = -3.25; }
+        if (member) { ctx.init(unsigned(b.size()), num.p, input.p, unsigned(a.size()), den.p, output.p); }
+        else { a_tf_init(&ctx, unsigned(b.size()), num.p, input.p, unsigned(a.size()), den.p, output.p); }
     }
 };
 
@@ -110,6 +114,7 @@ static void case_tf(Tape &t, Ctx &cx)
         if (nn >= 2 && dn >= 2 && distinct3) { cx.rep->nontrivial = true; }
     }
     TF f(b, a);
+    TF fm(b, a, true); // configured and driven through the C++ member functions of a_tf
     Ref r;
     r.b = b;
     r.a = a;
@@ -123,6 +128,7 @@ static void case_tf(Tape &t, Ctx &cx)
         if (k == zero_at && k > 0)
         {
             a_tf_zero(&f.ctx);
+            fm.ctx.zero();
             r.zero();
             cx.label(L_TF_ZERO_MID);
             if (dn != nn) { cx.rep->nontrivial = true; }
@@ -135,6 +141,8 @@ static void case_tf(Tape &t, Ctx &cx)
             return;
         }
         double got = a_tf_iter(&f.ctx, double(x1[k]));
+        double gotm = fm.ctx(double(x1[k]));
+        VP_CHECK(cx, memcmp(&got, &gotm, 8) == 0, "tf:member_differs", "step %u: the member call operator returns %.17g, a_tf_iter %.17g", k, gotm, got);
         y1[k] = want;
         if (!(got == double(want)))
         {
@@ -186,6 +194,49 @@ static void case_tf(Tape &t, Ctx &cx)
             if (delay) { cx.label(L_TF_DELAY); }
         }
     }
+    // (4) a new numerator or denominator on a live filter (a_tf_set_num / a_tf_set_den, C and member forms): the replaced side's
+    //     history starts from zero, the other side's history is kept; the new blocks are exact-size and arrive dirty
+    if (t.u8() % 3 == 0)
+    {
+        TF g(b, a), gm(b, a, true);
+        Ref rr;
+        rr.b = b; rr.a = a;
+        rr.in.assign(nn, 0); rr.out.assign(dn, 0);
+        unsigned at = t.u8() % (len + 1);
+        bool which_den = t.coin();
+        unsigned nk = t.u8() % 9;
+        std::vector<int> nc(nk);
+        for (auto &v : nc) { v = int(t.u8() % 7) - 3; }
+        Blk coef(nk), hist(nk), coefm(nk), histm(nk);
+        for (unsigned i = 0; i < nk; ++i) { coef.p[i] = coefm.p[i] = nc[i]; hist.p[i] = histm.p[i] = 11.5; }
+        bool ok4 = true;
+        cx.label(L_TF_RECONFIGURED);
+        cx.hash.add(at | (nk << 8) | (unsigned(which_den) << 16));
+        cx.log("  reconfigure at step %u: new %s of %u coefficients\n", at, which_den ? "denominator" : "numerator", nk);
+        for (unsigned k = 0; k < len; ++k)
+        {
+            if (k == at)
+            {
+                if (which_den)
+                {
+                    a_tf_set_den(&g.ctx, nk, coef.p, hist.p);
+                    gm.ctx.set_den(nk, coefm.p, histm.p);
+                    rr.a = nc; rr.out.assign(nk, 0);
+                }
+                else
+                {
+                    a_tf_set_num(&g.ctx, nk, coef.p, hist.p);
+                    gm.ctx.set_num(nk, coefm.p, histm.p);
+                    rr.b = nc; rr.in.assign(nk, 0);
+                }
+            }
+            i128 want = rr.step(x2[k], ok4);
+            if (!ok4) { break; }
+            double got = a_tf_iter(&g.ctx, double(x2[k])), gotm = gm.ctx(double(x2[k]));
+            if (!(got == double(want))) { cx.fail("tf:set_num_den", "step %u (new %s of %u coefficients installed at step %u): a_tf_iter returned %.17g, the difference equation gives %.17g", k, which_den ? "denominator" : "numerator", nk, at, got, double(want)); }
+            VP_CHECK(cx, memcmp(&got, &gotm, 8) == 0, "tf:member_differs", "step %u after member set_%s: member path returns %.17g, C path %.17g", k, which_den ? "den" : "num", gotm, got);
+        }
+    }
 }
 
 static double gen_alpha(Tape &t, Ctx &cx, bool &dyadic)
@@ -224,6 +275,7 @@ static void case_lpf(Tape &t, Ctx &cx)
     if (wide) { cx.label(L_WIDE); }
     a_lpf f;
     a_lpf_init(&f, alpha);
+    a_lpf fm = f; // driven through the C++ member functions
     cx.hash.addd(alpha);
     cx.label(L_LPF);
     cx.log("lpf alpha=%.17g len=%u %s\n", alpha, len, ints ? "integer inputs" : "real inputs");
@@ -237,6 +289,10 @@ static void case_lpf(Tape &t, Ctx &cx)
         if (x > hi) { hi = x; }
         double before = f.output;
         double y = a_lpf_iter(&f, x);
+        {
+            double ym = fm(x);
+            VP_CHECK(cx, memcmp(&y, &ym, 8) == 0 && memcmp(&f, &fm, sizeof(f)) == 0, "lpf:member_differs", "step %u: member call operator gives %.17g, a_lpf_iter %.17g", k, ym, y);
+        }
         {
             // the documented difference equation, one step, evaluated in long double on the filter's own previous output
             LD want = (1 - (LD)alpha) * (LD)before + (LD)alpha * (LD)x;
@@ -260,6 +316,8 @@ static void case_lpf(Tape &t, Ctx &cx)
         double c = ints ? double(int(t.u16() % 2001) - 1000) : std::ldexp(double(int32_t(t.u32() | 1)) / 2147483648.0, int(t.u8() % 41) - 20);
         a_lpf_zero(&f);
         VP_CHECK(cx, f.output == 0, "lpf:zero", "a_lpf_zero left output %.17g", f.output);
+        fm.zero();
+        VP_CHECK(cx, memcmp(&f, &fm, sizeof(f)) == 0, "lpf:member_differs", "member zero() and a_lpf_zero leave different states");
         double prev = std::fabs(c);
         double tol = 4 * ulp_of(c);
         LD remain = fabsl((LD)c);
@@ -282,6 +340,7 @@ static void case_hpf(Tape &t, Ctx &cx)
     double alpha = gen_alpha(t, cx, dy);
     a_hpf f;
     a_hpf_init(&f, alpha);
+    a_hpf fm = f; // driven through the C++ member functions
     cx.hash.addd(alpha);
     cx.label(L_HPF);
     bool ints = dy || t.coin();
@@ -294,6 +353,10 @@ static void case_hpf(Tape &t, Ctx &cx)
         cx.hash.addd(x);
         double ob = f.output, ib = f.input;
         double y = a_hpf_iter(&f, x);
+        {
+            double ym = fm(x);
+            VP_CHECK(cx, memcmp(&y, &ym, 8) == 0 && memcmp(&f, &fm, sizeof(f)) == 0, "hpf:member_differs", "prefix step %u: member call operator gives %.17g, a_hpf_iter %.17g", k, ym, y);
+        }
         {
             LD want = (LD)alpha * ((LD)ob + (LD)x - (LD)ib);
             double eqtol = 4 * ulp_of(std::fabs(ob) + std::fabs(x) + std::fabs(ib));
@@ -321,6 +384,20 @@ static void case_hpf(Tape &t, Ctx &cx)
         if (!(ay <= prev + tol)) { cx.fail("hpf:not_decaying", "constant input %.17g: |output| grew from %.17g to %.17g at step %u (alpha %.17g)", c, prev, ay, k, alpha); }
         if (alpha < 1 && !(ay <= double(bound) + tol / (1 - alpha) + tol)) { cx.fail("hpf:does_not_decay", "constant input %.17g: after %u steps |output| = %.17g, the recurrence gives %.17Lg (alpha %.17g)", c, k + 2, ay, bound, alpha); }
         prev = ay;
+    }
+    // zero: afterwards the filter answers like a freshly initialised one (C and member forms)
+    {
+        double z1 = 0.0;
+        for (unsigned k = 0; k < 2; ++k) { z1 = fm(c); }
+        (void)z1;
+        a_hpf_zero(&f);
+        fm.zero();
+        a_hpf fresh;
+        a_hpf_init(&fresh, alpha);
+        VP_CHECK(cx, memcmp(&f, &fresh, sizeof(f)) == 0, "hpf:zero_not_fresh", "a_hpf_zero leaves (output %.17g, input %.17g), a freshly initialised filter has (%.17g, %.17g)", f.output, f.input, fresh.output, fresh.input);
+        VP_CHECK(cx, memcmp(&fm, &fresh, sizeof(f)) == 0, "hpf:member_differs", "member zero() leaves (output %.17g, input %.17g)", fm.output, fm.input);
+        double a1 = a_hpf_iter(&f, c), a2 = a_hpf_iter(&fresh, c);
+        VP_CHECK(cx, memcmp(&a1, &a2, 8) == 0, "hpf:zero_not_fresh", "first output after a_hpf_zero %.17g, fresh filter %.17g", a1, a2);
     }
 }
 
@@ -360,6 +437,16 @@ static void case_gen(Tape &t, Ctx &cx)
     cx.rep->nontrivial = true;
     LD prod = (LD)fc * (LD)ts; // long double has the exponent range for every pair of doubles
     double al = a_lpf_gen(fc, ts), ah = a_hpf_gen(fc, ts);
+    {
+        a_lpf ml;
+        a_hpf mh;
+        memset(&ml, 0, sizeof(ml));
+        memset(&mh, 0, sizeof(mh));
+        ml.gen(fc, ts);
+        mh.gen(fc, ts);
+        VP_CHECK(cx, memcmp(&ml.alpha, &al, 8) == 0, "lpf_gen:member_differs", "member gen(%.17g, %.17g) sets alpha %.17g, a_lpf_gen gives %.17g", fc, ts, ml.alpha, al);
+        VP_CHECK(cx, memcmp(&mh.alpha, &ah, 8) == 0, "hpf_gen:member_differs", "member gen(%.17g, %.17g) sets alpha %.17g, a_hpf_gen gives %.17g", fc, ts, mh.alpha, ah);
+    }
     cx.log("gen fc=%.17g ts=%.17g product=%.6Lg -> lpf %.17g hpf %.17g\n", fc, ts, prod, al, ah);
     LD tau = 6.283185307179586476925286766559L;
     LD rl = 1 / (1 + 1 / (tau * prod)), rh = 1 / (tau * prod + 1);
